@@ -123,11 +123,26 @@ func (p *Prog) implementers(t types.Type) []types.Type {
 // modset: syntactic over-approximation of the heap variables a function may assign
 // (field granularity; "*" = anything).
 func (p *Prog) modset(fi *FuncInfo) map[string]bool {
-	if ms, ok := p.modsets[fi.Key]; ok {
+	return p.modsetBound(fi, nil)
+}
+
+// modsetBound: mod-set of fi when some interface-typed parameters are known to hold the given
+// concrete types (one level of context sensitivity, for generic helpers such as decode(buf, in)).
+func (p *Prog) modsetBound(fi *FuncInfo, bind map[string]types.Type) map[string]bool {
+	key := fi.Key
+	if len(bind) > 0 {
+		var ks []string
+		for k, t := range bind {
+			ks = append(ks, k+"="+types.TypeString(t, nil))
+		}
+		sortStrings(ks)
+		key += "|" + strings.Join(ks, ",")
+	}
+	if ms, ok := p.modsets[key]; ok {
 		return ms
 	}
 	ms := map[string]bool{}
-	p.modsets[fi.Key] = ms // cycle guard: recursion sees the partial set; fixpoint below
+	p.modsets[key] = ms // cycle guard: recursion sees the partial set
 	if fi.Body == nil {
 		if ct := p.contracts[fi.Key]; ct != nil && ct.HasModifies {
 			ms["$contract"] = true
@@ -148,11 +163,19 @@ func (p *Prog) modset(fi *FuncInfo) map[string]bool {
 		}
 		return ms
 	}
-	p.modsetOf(fi, fi.Body, ms)
+	p.modsetOf(fi, fi.Body, ms, bind)
 	return ms
 }
 
-func (p *Prog) modsetOf(fi *FuncInfo, body ast.Node, ms map[string]bool) {
+func sortStrings(s []string) {
+	for i := 1; i < len(s); i++ {
+		for j := i; j > 0 && s[j] < s[j-1]; j-- {
+			s[j], s[j-1] = s[j-1], s[j]
+		}
+	}
+}
+
+func (p *Prog) modsetOf(fi *FuncInfo, body ast.Node, ms map[string]bool, bind map[string]types.Type) {
 	info := fi.Pkg.TypesInfo
 	var markLhs func(e ast.Expr)
 	markLhs = func(e ast.Expr) {
@@ -226,13 +249,13 @@ func (p *Prog) modsetOf(fi *FuncInfo, body ast.Node, ms map[string]bool) {
 			// channel ghost effects
 			ms["$chan"] = true
 		case *ast.CallExpr:
-			p.modsetCall(fi, s, ms)
+			p.modsetCall(fi, s, ms, bind)
 		}
 		return true
 	})
 }
 
-func (p *Prog) modsetCall(fi *FuncInfo, ce *ast.CallExpr, ms map[string]bool) {
+func (p *Prog) modsetCall(fi *FuncInfo, ce *ast.CallExpr, ms map[string]bool, bind map[string]types.Type) {
 	info := fi.Pkg.TypesInfo
 	fun := ast.Unparen(ce.Fun)
 	if tv, ok := info.Types[fun]; ok && tv.IsType() {
@@ -337,7 +360,40 @@ func (p *Prog) modsetCall(fi *FuncInfo, ce *ast.CallExpr, ms map[string]bool) {
 		}
 		return
 	}
+	if ct := p.contracts[cfi.Key]; ct != nil && ct.HasModifies {
+		// a contract with a modifies clause bounds the effects: translate its items to field granularity
+		p.contractModset(ct, cfi, ms)
+		return
+	}
 	if cfi.Iface != nil {
+		// receiver is a parameter bound to a concrete type in this context
+		if sel, ok := fun.(*ast.SelectorExpr); ok {
+			if id, ok := ast.Unparen(sel.X).(*ast.Ident); ok {
+				if ct, ok := bind[id.Name]; ok {
+					if n := namedOf(ct); n != "" {
+						if ifi := p.funcs[p.keyPrefix(cfi.Pkg)+n+"."+callee.Name()]; ifi != nil && ifi.Body != nil {
+							for k := range p.modset(ifi) {
+								ms[k] = true
+							}
+							return
+						}
+					}
+				}
+			}
+			// receiver with a concrete static type
+			if rt := info.TypeOf(sel.X); rt != nil {
+				if _, isIface := rt.Underlying().(*types.Interface); !isIface {
+					if n := namedOf(rt); n != "" {
+						if ifi := p.funcs[p.keyPrefix(cfi.Pkg)+n+"."+callee.Name()]; ifi != nil && ifi.Body != nil {
+							for k := range p.modset(ifi) {
+								ms[k] = true
+							}
+							return
+						}
+					}
+				}
+			}
+		}
 		// union over repo implementations
 		impls := p.implementers(callee.Type().(*types.Signature).Recv().Type())
 		if len(impls) == 0 {
@@ -358,7 +414,35 @@ func (p *Prog) modsetCall(fi *FuncInfo, ce *ast.CallExpr, ms map[string]bool) {
 	if ct := p.contracts[cfi.Key]; ct != nil && (len(ct.Effects) > 0 || ct.HasModifies) {
 		ms["$ghost"] = true
 	}
-	for k := range p.modset(cfi) {
+	// bind interface parameters to the concrete static types of the arguments
+	var cb map[string]types.Type
+	csig := callee.Type().(*types.Signature)
+	for i := 0; i < csig.Params().Len() && i < len(ce.Args); i++ {
+		pv := csig.Params().At(i)
+		if _, isIface := pv.Type().Underlying().(*types.Interface); !isIface {
+			continue
+		}
+		at := info.TypeOf(ce.Args[i])
+		if at == nil {
+			continue
+		}
+		if id, ok := ast.Unparen(ce.Args[i]).(*ast.Ident); ok {
+			if bt, ok := bind[id.Name]; ok {
+				at = bt
+			}
+		}
+		if _, argIface := at.Underlying().(*types.Interface); argIface {
+			continue
+		}
+		if namedOf(at) == "" {
+			continue
+		}
+		if cb == nil {
+			cb = map[string]types.Type{}
+		}
+		cb[pv.Name()] = at
+	}
+	for k := range p.modsetBound(cfi, cb) {
 		ms[k] = true
 	}
 }
@@ -404,4 +488,101 @@ func modsetMatches(ms map[string]bool, hv string) bool {
 		}
 	}
 	return false
+}
+
+// contractModset adds the heap variables named by a contract's modifies clause (field granularity).
+func (p *Prog) contractModset(ct *Contract, fi *FuncInfo, ms map[string]bool) {
+	ms["$ghost"] = true
+	typeOfName := func(name string) types.Type {
+		if fi.Sig == nil {
+			return nil
+		}
+		if fi.Sig.Recv() != nil && (name == ct.RecvName || name == fi.Sig.Recv().Name()) {
+			return fi.Sig.Recv().Type()
+		}
+		for i := 0; i < fi.Sig.Params().Len(); i++ {
+			pv := fi.Sig.Params().At(i)
+			if pv.Name() == name || (i < len(ct.Params) && ct.Params[i] == name) {
+				return pv.Type()
+			}
+		}
+		return nil
+	}
+	addType := func(t types.Type, field string) {
+		if t == nil {
+			ms["*"] = true
+			return
+		}
+		if _, isIface := t.Underlying().(*types.Interface); isIface {
+			ms["F."+p.structName(t)+".*"] = true
+			for _, it := range p.implementers(t) {
+				if st, stt := structOf(it); st != nil {
+					if field == "" {
+						ms["F."+p.structName(stt)+".*"] = true
+					} else {
+						ms["F."+p.structName(stt)+"."+field] = true
+					}
+				}
+			}
+			return
+		}
+		if st, stt := structOf(t); st != nil {
+			if field == "" {
+				ms["F."+p.structName(stt)+".*"] = true
+			} else {
+				ms["F."+p.structName(stt)+"."+field] = true
+			}
+			return
+		}
+		ms["*"] = true
+	}
+	for _, m := range ct.Modifies {
+		m = strings.TrimSpace(m)
+		switch {
+		case m == "*":
+			ms["*"] = true
+		case m == "maps":
+			ms["M.*"] = true
+		case m == "":
+		default:
+			parts := strings.Split(m, ".")
+			if len(parts) < 2 {
+				ms["*"] = true
+				continue
+			}
+			base := parts[0]
+			t := typeOfName(base)
+			if t == nil {
+				// Type.field
+				if tn, ok := fi.Pkg.Types.Scope().Lookup(base).(*types.TypeName); ok {
+					ms["F."+p.structName(tn.Type())+"."+strings.TrimPrefix(parts[1], "$")] = true
+					ms["F."+p.structName(tn.Type())+".$"+strings.TrimPrefix(parts[1], "$")] = true
+					continue
+				}
+				ms["*"] = true
+				continue
+			}
+			// follow intermediate fields
+			for _, f := range parts[1 : len(parts)-1] {
+				st, stt := structOf(t)
+				if st == nil {
+					t = nil
+					break
+				}
+				obj, _, _ := types.LookupFieldOrMethod(stt, true, fi.Pkg.Types, f)
+				if v, ok := obj.(*types.Var); ok {
+					t = v.Type()
+				} else {
+					t = nil
+					break
+				}
+			}
+			last := parts[len(parts)-1]
+			if last == "*" {
+				addType(t, "")
+			} else {
+				addType(t, last)
+			}
+		}
+	}
 }
